@@ -59,6 +59,7 @@ func verifyFunction(w *World, specs *Specs, tt *TypeTable, fn *ssa.Function, c *
 	}
 	vc.tparamsEnv = typeParamsOf(fn)
 	vc.findLoops()
+	vc.addAxioms()
 	st := &State{vals: map[ssa.Value]Val{}, heap: newHeap(), callCount: map[string]int{}, iters: map[ssa.Value]*iterInfo{}, wgAdded: map[string]Term{}, loopHeap: map[*ssa.BasicBlock]*Heap{}}
 	st.assume = append(st.assume, app(">=", vc.top(st), "0"))
 	for _, p := range fn.Params {
@@ -95,6 +96,18 @@ func verifyFunction(w *World, specs *Specs, tt *TypeTable, fn *ssa.Function, c *
 	vc.cover(st, "requires-satisfiable", posString(w, fn.Pos()), vc.effective.Props)
 	vc.execFrom(st, fn.Blocks[0], nil)
 	return res
+}
+
+// addAxioms includes the trusted axioms (//@ axiom) of the spec files; they speak about opaque spec functions only.
+func (vc *VC) addAxioms() {
+	for _, ax := range vc.specs.Axioms {
+		if ax.Lemma {
+			continue
+		}
+		e := &Env{vc: vc, pkg: ax.Pkg, vars: map[string]TV{}, heap: newHeap(), old: newHeap()}
+		vc.d.axiom(e.trBool(ax.Expr))
+		vc.usedTrusted["axiom "+ax.Label] = true
+	}
 }
 
 // buildProbes evaluates the probe expressions of the contract (and one automatic probe per scalar parameter) in the
